@@ -21,6 +21,7 @@ import (
 	_ "verif/props/c17"
 	_ "verif/props/c18"
 	_ "verif/props/c19"
+	_ "verif/props/c20"
 )
 
 func main() { mcx.Main() }
